@@ -33,6 +33,8 @@ fn main() {
         "c14" => vmc::props::c14(tier),
         "c15" => vmc::props::c15(tier),
         "c16" => vmc::props::c16(tier),
+        "c17" => vmc::macenum::main(tier),
+        "c18" => vmc::keysrel::main(tier),
         x if x.starts_with("dump-") => vmc::props::dump(&x[5..], tier),
         _ => usage(),
     };
